@@ -701,6 +701,9 @@ class Engine:
             return [s.operand(st, frame, o) for o in rv[1]]
         if k == 'opaque':
             return Opaque()
+        if k == 'repeat':
+            v = s.operand(st, frame, rv[1])
+            return VecVal(bv(rv[2], 64), [v] * rv[2], bv(rv[2], 64))        # fixed-size array
         raise Unsupported(f'rvalue {rv}')
 
     # ------------------------------------------------------------ running
